@@ -354,6 +354,15 @@ def tensor_method(it, tv, name, args, kwargs, node):
         it.ext_calls.append(("tensor." + name, [tv] + list(args), kwargs, it.site(node), None))
         it.write(tv, T.app("rng_" + name, T.sym("rng@%s" % it.site(node))), node, name)
         return tv
+    if name == "zero_":
+        it.write(tv, T.ZERO, node, name)
+        return tv
+    if name == "fill_" and args and num_term(args[0]) is not None:
+        it.write(tv, num_term(args[0]), node, name)
+        return tv
+    if name == "copy_" and args and isinstance(args[0], VTens):
+        it.write(tv, args[0].term, node, name)
+        return tv
     if inplace:
         # any other in-place method: a data write with an opaque result
         nt = T.app(base, t, *[_argterm(a) for a in args]) if t is not None else None
